@@ -23,6 +23,7 @@ class, or — rarely — a chunk that makes every later build fail) and a histor
   K  (correspondence): result of every step and dump of every metamodel after every step = the Lean heap model
        `Pyx.Heap.run` (PyxModel/LoadHeap.lean) run with the sharing parameters generated from the source.
 """
+import gc
 import hashlib
 import itertools
 import os
@@ -35,7 +36,7 @@ RULE = ('exhaustive histories up to length 4 (thorough: 5) over the alphabet {in
         'prefix followed by a syntax error: raises ParsingException, nothing is accepted)} + {mut k m : k in {0,1}, '
         'm in a fixed list of 10 mutations} + 3 clone operations, and of length 5 (thorough: 6) over a reduced alphabet of 5 mutations, on a '
         'fixed two-class scenario, only histories with a build whose mutations target an already built metamodel; '
-        'plus random histories of length <= 12 (builds with their own IntegerGenerator or with none; some with a row that cannot be populated, so that every later build is rejected; some whose builds are rejected until a later input brings the missing CREATE TABLE) over '
+        'plus random histories of length <= 12 (builds with their own IntegerGenerator or with none; some with a row that cannot be populated, so that every later build is rejected; some whose builds are rejected until a later input brings the missing CREATE TABLE; every 40th case also runs twelve build / discard / gc.collect rounds on a loader of its own) over '
         'generated schemas and populations (some with a class whose rows are read before its CREATE TABLE, so that earlier builds infer it) with randomly chosen mutations. Non-trivial = at least two metamodels were '
         'built and a mutation changed one of them; distinct = distinct (chunks, history)')
 EXHAUSTIVE = {'quick': True, 'thorough': True}
@@ -323,7 +324,10 @@ def generate(ctx):
             yield {'chunks': FIXED_CHUNKS, 'ops': [list(o) for o in h], 'fam': 'exhaustive-reduced'}
     rng = ctx.rng.fork('random')
     for i in range(ctx.pick(4000, 40000)):
-        yield _random_case(rng.fork(i), 12)
+        case = _random_case(rng.fork(i), 12)
+        if i % 40 == 0:
+            case['discard'] = True       # additionally: twelve build / discard / collect rounds on a loader of its own
+        yield case
 
 
 # ----------------------------------------------------------------------------- observation of one metamodel
@@ -715,10 +719,39 @@ def run_impl(case):
                      % (step, dumps(_enc_op(op, case)), type(o).__name__, role, root))
                 break
         obs.append([res] + [Sym('own-generator') if j in defaults else _digest(a[0]) for j, a in enumerate(after)])
+    if case.get('discard'):
+        _discard_rounds(chunks, fail, stats)
     nontrivial = len([h for h in handles if h.m is not None]) >= 2 and changed_some
     return {'obs': obs, 'd_fail': fails, 'nontrivial': nontrivial,
             'key': dumps([_enc_op(o, case) for o in case['ops']]) + '|' + str(hash(repr(chunks))),
             'stats': stats}
+
+
+def _discard_rounds(chunks, fail, stats):
+    """a loader whose results are DISCARDED: build, compare with the accepted input, drop every reference, collect the
+    garbage, build again — twelve rounds, with further input in between (nothing a build leaves behind in the loader may
+    stand for a metamodel that no longer exists: a later metamodel can live at the same address)"""
+    loader = _x.ModelLoader()
+    accepted = []
+    nxt = 0
+    for rnd in range(12):
+        if nxt < len(chunks) and rnd % 3 == 0:
+            loader.input(G.text_of(chunks[nxt]))
+            accepted.extend(chunks[nxt])
+            nxt += 1
+        try:
+            m = loader.build_metamodel(_x.IntegerGenerator())
+        except _DOC:
+            m = None
+        if m is not None:
+            before = len(accepted)
+            _check_build_from_input(m, accepted, fail, 'round %d of a loader whose earlier metamodels were discarded' % rnd)
+            if any(s_['t'] == 'cls' for s_ in accepted) and not len(m.metaclasses):
+                fail('build-empty', 'round %d: build_metamodel returned a metamodel without classes although %d statements were '
+                     'accepted (the earlier metamodels had been discarded and collected)' % (rnd, before))
+        m = None
+        gc.collect()
+    stats['discard_rounds'] = 1
 
 
 def _check_build_from_input(m, stmts, fail, which):
